@@ -100,6 +100,7 @@ type tr struct {
 	fuelFns map[string]bool // functions that need fuel (contain a general for loop, directly or through calls)
 	mutates map[string][]int // function key -> indices of slice parameters written through
 	cur     string
+	labels  map[string]string // goto targets bound as local continuations (per function)
 	knum    int
 	errs    []string
 }
